@@ -47,12 +47,6 @@ static void pick_config(void) {
   MarkBits = in_mb; MaxUpperMarkBits = in_mu;
   XV_ASSUME(XV_SA_POSITIVE); XV_ASSUME(XV_SA_MAXBITS);
   XV_OBL("mp.static_asserts.hold", XV_SA_PTR64);
-#ifdef XV_MB
-  XV_ASSUME(MarkBits == XV_MB);
-#endif
-#ifdef XV_MU
-  XV_ASSUME(MaxUpperMarkBits == XV_MU);
-#endif
 #ifdef XV_TRACE_SMALL
   XV_ASSUME(MaxUpperMarkBits <= 33);   /* counterexample extraction only: the replay program instantiates MaxUpper 0..33 (33 behaves like every larger value) */
 #endif
@@ -120,19 +114,24 @@ void h_eq(void) {
 /* ---------------- any representation word (what a load from an atomic / a copy may hold) ---------------- */
 void h_repr(void) {
   pick_config();
-  in_w = nondet_uptr(); in_w2 = nondet_uptr();
-  struct mp a, b, c; a._ptr = (T*)in_w; b._ptr = (T*)in_w2; c._ptr = (T*)nondet_uptr();
+  in_w = nondet_uptr();
+  struct mp a, c; a._ptr = (T*)in_w; c._ptr = (T*)nondet_uptr();
   T* p = mp_get(&a); uintptr_t m = mp_mark(&a);
   XV_OBL("mp.repr.bijective", XV_PRE_MAKE_PTR);                         /* get() is canonical */
   XV_OBL("mp.repr.bijective", m <= spec_low_ones(MarkBits));
   mp_ctor(&c, p, m);
   XV_OBL("mp.repr.bijective", (uintptr_t)c._ptr == in_w && mp_eq(c, a));
+  XV_OBL("mp.reset.null", mp_bool(&a) == (mp_get(&a) != 0 || mp_mark(&a) != 0));
+  XV_CANARY("repr.reached");
+}
+void h_repr_eq(void) {
+  pick_config();
+  in_w = nondet_uptr(); in_w2 = nondet_uptr();
+  struct mp a, b; a._ptr = (T*)in_w; b._ptr = (T*)in_w2;
   _Bool same = mp_get(&a) == mp_get(&b) && mp_mark(&a) == mp_mark(&b);
   XV_OBL("mp.eq.value", mp_eq(a, b) == same);
   XV_OBL("mp.eq.value", mp_ne(a, b) == !same);
-  XV_OBL("mp.reset.null", mp_bool(&a) == (mp_get(&a) != 0 || mp_mark(&a) != 0));
-  XV_CANARY("repr.reached");
-  if (same) XV_CANARY("repr.equal");
+  if (same) XV_CANARY("repr.equal"); else XV_CANARY("repr.differ");
 }
 
 /* ---------------- reset / bool ---------------- */
